@@ -97,7 +97,7 @@ def run_sharded(ck, pid, binary, common, nshards, watchdog_s, env=None, workdir=
                 for key, v in d.items():
                     if key not in c:
                         c[key] = v
-                    elif isinstance(v, (int, float)) and key not in ("evaluations", "distinct_nontrivial") and isinstance(c[key], (int, float)) and not isinstance(v, bool):
+                    elif isinstance(v, (int, float)) and key not in ("evaluations", "distinct_nontrivial", "observation_floor") and isinstance(c[key], (int, float)) and not isinstance(v, bool):
                         c[key] = c[key] + v
                     elif isinstance(v, dict) and key not in ("observed", "inconclusive", "known_findings_matched") and isinstance(c[key], dict):
                         for kk, vv in v.items():
@@ -119,7 +119,7 @@ def finish(ck, pid, opts, rc, merged, death_reports, floor=None, known_death=Non
     os.makedirs(rdir, exist_ok=True)
     n = 0
     for d in death_reports:
-        sig = "process-death/status%s/%s" % (d["status"], (d["last_started_case"] or "unknown").split("#")[0])
+        sig = "process-death/status%s/%s" % (d["status"], (d["last_started_case"] or "unknown").split("#case")[0])
         if sig in known_death:
             print("KNOWN-FINDING: property=%s %s [%s]" % (pid, known_death[sig], sig))
             merged["coverage"].setdefault("known_findings_matched", {})[sig] = 1
